@@ -179,6 +179,72 @@ fn board_chunk(rng: &mut Rng, events: usize, out: &mut dyn Write) {
                 n += 1;
                 continue;
             }
+            // now and then edit the board through the deprecated in-place API
+            if rng.chance(1, 25) {
+                let mut ev = Map::new();
+                #[allow(deprecated)]
+                if rng.chance(1, 4) {
+                    let add = rng.chance(1, 3);
+                    let c = if rng.chance(1, 2) { Color::White } else { Color::Black };
+                    let which = [CastleRights::KingSide, CastleRights::QueenSide, CastleRights::Both][rng.below(3)];
+                    let names: Vec<&str> = match (c, which) {
+                        (Color::White, CastleRights::KingSide) => vec!["K"],
+                        (Color::White, CastleRights::QueenSide) => vec!["Q"],
+                        (Color::White, _) => vec!["K", "Q"],
+                        (Color::Black, CastleRights::KingSide) => vec!["k"],
+                        (Color::Black, CastleRights::QueenSide) => vec!["q"],
+                        (Color::Black, _) => vec!["k", "q"],
+                    };
+                    // only add rights that are backed, so that the game can go on
+                    let backed = {
+                        let r = if c == Color::White { 0 } else { 56 };
+                        let p = proj(&b);
+                        let k = if c == Color::White { b'K' } else { b'k' };
+                        let rk = if c == Color::White { b'R' } else { b'r' };
+                        p.sq[r + 4] == k && (!which.has_kingside() || p.sq[r + 7] == rk) && (!which.has_queenside() || p.sq[r] == rk)
+                    };
+                    if add && !backed {
+                        continue;
+                    }
+                    if add {
+                        b.add_castle_rights(c, which);
+                    } else {
+                        b.remove_castle_rights(c, which);
+                    }
+                    ev.insert("event".into(), json!("Rights"));
+                    ev.insert("add".into(), json!(add));
+                    ev.insert("which".into(), json!(names));
+                    observe(&b, &mut ev);
+                } else {
+                    let i = rng.below(64);
+                    let sq = Square::new(i as u8);
+                    let here = proj(&b).sq[i];
+                    if here == b'K' || here == b'k' {
+                        continue;
+                    }
+                    let man: u8 = if rng.chance(1, 3) { b'.' } else { b"PNBRQpnbrq"[rng.below(10)] };
+                    if (man == b'P' || man == b'p') && (i < 8 || i >= 56) {
+                        continue;
+                    }
+                    let res = if man == b'.' {
+                        b.clear_square(sq)
+                    } else {
+                        let (pc, c) = letter_piece(man).unwrap();
+                        b.set_piece(pc, c, sq)
+                    };
+                    ev.insert("event".into(), json!("Edit"));
+                    ev.insert("esq".into(), json!(i));
+                    ev.insert("man".into(), json!((man as char).to_string()));
+                    ev.insert("ok".into(), json!(res.is_some()));
+                    if let Some(nb) = res {
+                        b = nb;
+                    }
+                    observe(&b, &mut ev);
+                }
+                writeln!(out, "{}", Value::Object(ev)).unwrap();
+                n += 1;
+                continue;
+            }
             let ms: Vec<ChessMove> = MoveGen::new_legal(&b).collect();
             if ms.is_empty() {
                 break;
@@ -894,6 +960,51 @@ fn validate_chunk(rng: &mut Rng, events: usize, out: &mut dyn Write, progress: &
                 }
             }
             let input = json!({"in_sq": sq_string(&sq), "in_stm": (stm as char).to_string(), "in_cr": cr_list(cr), "in_epfile": epfile});
+            if rng.chance(1, 3) {
+                // the builder as a data structure: getters, indexing, rendering, re-parsing
+                let mut ev = input.as_object().unwrap().clone();
+                ev.insert("event".into(), json!("BuilderState"));
+                let r = std::panic::catch_unwind(|| {
+                    let bb = builder_of(&sq, stm, cr, epfile);
+                    let text = format!("{}", bb);
+                    let text2 = match BoardBuilder::from_str(&text) {
+                        Ok(b2) => format!("{}", b2),
+                        Err(_) => "unparsable".to_string(),
+                    };
+                    let mut g_sq = [b'.'; 64];
+                    for i in 0..64u8 {
+                        if let Some((pc, c)) = bb[Square::new(i)] {
+                            g_sq[i as usize] = piece_letter(pc, c);
+                        }
+                    }
+                    let g_cr = (if bb.get_castle_rights(Color::White).has_kingside() { 1 } else { 0 })
+                        | (if bb.get_castle_rights(Color::White).has_queenside() { 2 } else { 0 })
+                        | (if bb.get_castle_rights(Color::Black).has_kingside() { 4 } else { 0 })
+                        | (if bb.get_castle_rights(Color::Black).has_queenside() { 8 } else { 0 });
+                    (text, text2, g_sq, if bb.get_side_to_move() == Color::White { "w" } else { "b" }, g_cr, bb.get_en_passant().map(|s| s.to_index() as i64).unwrap_or(-1))
+                });
+                match r {
+                    Ok((text, text2, g_sq, g_stm, g_cr, g_ep)) => {
+                        ev.insert("text".into(), json!(text));
+                        ev.insert("text2".into(), json!(text2));
+                        ev.insert("g_sq".into(), json!(sq_string(&g_sq)));
+                        ev.insert("g_stm".into(), json!(g_stm));
+                        ev.insert("g_cr".into(), json!(cr_list(g_cr)));
+                        ev.insert("g_ep".into(), json!(g_ep));
+                    }
+                    Err(_) => {
+                        ev.insert("text".into(), json!("panic"));
+                        ev.insert("text2".into(), json!(""));
+                        ev.insert("g_sq".into(), json!(""));
+                        ev.insert("g_stm".into(), json!(""));
+                        ev.insert("g_cr".into(), json!([]));
+                        ev.insert("g_ep".into(), json!(-2));
+                    }
+                }
+                writeln!(out, "{}", Value::Object(ev)).unwrap();
+                n += 1;
+                continue;
+            }
             if rng.chance(1, 2) {
                 // through the builder
                 let mut ev = input.as_object().unwrap().clone();
